@@ -197,6 +197,7 @@ def run(prog, rep, tier):
     # buffer the readers allocate in the worker threads is sized by the block size (blocksz, or
     # blocksz_at_blockoffset), a constant, or the length of data already in memory; a buffer sized by a
     # declared file size makes the allocator abort the whole process.
+    import re as _re710
     R710 = rep.rule("R7.10", "buffers allocated while reading are sized by the block size or by data at hand, not by a declared file size")
     n710 = 0
     DECL = ("filesz", "filesz_actual", "size", "uncompressed_size", "entry_size", "header_size", "len_total", "filesz_header")
@@ -237,6 +238,24 @@ def run(prog, rep, tier):
                                             if y[0] == "call" and y[2].split("::")[-1] in DECL:
                                                 declared.append(y[2].split("::")[-1] + "() via min")
                             continue
+                        if nm_ in ("max",):
+                            # max(block size, x): x decides whenever it is larger - judge every operand
+                            mc_ = [z for z in ab.calls if z.bb == x[1]][0]
+                            for a_ in mc_.args:
+                                if a_[0] == "k":
+                                    continue
+                                for y in ab.origins(a_, through_calls=("::try_into", "::unwrap", "::into", "::try_from")):
+                                    if y[0] == "call":
+                                        yc_ = [z for z in ab.calls if z.bb == y[1]][0]
+                                        from_file = any(("BufReader<" in str(t_) or "std::fs::File" in str(t_) or "Decoder<" in str(t_)) for t_ in (yc_.callee.get("aty") or []))
+                                        if y[2].split("::")[-1] in DECL or from_file:
+                                            declared.append(y[2].split("::")[-1] + "() via max")
+                            continue
+                        # a number decoded from the file's own bytes (a function handed the file reader)
+                        oc_ = [z for z in ab.calls if z.bb == x[1]][0]
+                        if (oc_.d.startswith("s4lib::") or oc_.d.startswith("s4::")) and any(("BufReader<" in str(t_) or "std::fs::File" in str(t_) or "Decoder<" in str(t_)) for t_ in (oc_.callee.get("aty") or [])) \
+                                and _re710.search(r"(u64|u32|usize|i64|Option<u64>|Option<usize>)", ab.local_ty(oc_.dest[0]) or ""):
+                            declared.append(nm_ + "() (decoded from the file)")
                         # `size()` of a record *layout* (FixedStructType::size, a constant per type) is not a size the file declares
                         layout_const = nm_ == "size" and "FixedStructType" in x[2]
                         if (nm_ in DECL or nm_ in ("filesz", "filesz_actual", "size")) and not layout_const:
